@@ -459,7 +459,7 @@ class C12Family(Family):
         tnames = list(TYPES)
         for i in range(n_typed):
             rng = random.Random(f'c12t/{seed}/{i}')
-            tname = tnames[i % len(tnames)]
+            tname = rng.choice(tnames)  # not i % len: case index correlates with the shard, and one process must see many types
             how = rng.choice(['kwarg', 'kwarg', 'generic', 'field'])
             yield {'family': self.name, 'kind': 'typed', 'i': i, 'type': tname, 'value': rand_valspec(rng, tname), 'how': how}
         all_flags = [(a, b, c) for a in (True, False) for b in (True, False) for c in (True, False)]
